@@ -22,6 +22,9 @@ def run(tier, rep, work):
     hybfam.run_trace(rep, work, exe, d, "C05", tier, "random", None, 7, 1500 if quick else 15000, C.seed(), n); n += 1
     # an IVF vector sub-index searched at full probe through the hybrid builder (exact, so the same oracle applies; exercises the nprobes pass-through)
     hybfam.run_trace(rep, work, exe, d, "C05", tier, "random/ivf-full-probe", gen7[(C.seed() + 3) % stride::stride * 3], 7, 500 if quick else 5000, C.seed() + 1, n, vec="ivf")
+    # an HNSW vector sub-index whose 2M and efSearch lie above the document count (exhaustive graph search: same oracle; exercises the efSearch pass-through)
+    n += 1
+    hybfam.run_trace(rep, work, exe, d, "C05", tier, "random/hnsw-small", gen7[(C.seed() + 5) % stride::stride * 3], 7, 400 if quick else 4000, C.seed() + 2, n, vec="hnsw")
     rep.cov["exhaustive"] = False
     rep.cov["exhaustive_scope"] = "write histories enumerated completely by TLC, a stride replayed; the query space is sampled (battery + random)"
     rep.cov["rule"] = ("TLC enumerates every history of hybrid Add / failing Add / Remove / Flush / Reload up to 4 operations over 2 ids and 5 document templates (documents with any subset of "
